@@ -430,7 +430,7 @@ theorem sprint_mp : ∀ {a b : GoVal}, MP a b → RRel true Eq (sprint a) (sprin
   | _, _, .array _ hl => by
     rw [sprint, sprint]
     exact rrel_true_bind_soft (sprintAll_mp hl) (fun _ => RRel.of_eq (fun _ => rfl) rfl)
-  | _, _, @MP.map _ _ kvs mid kvs' _ hk _ hm hp => by
+  | _, _, @MP.map _ _ kvs mid kvs' _ hk _ hm hp _ => by
     rw [sprint, sprint]
     have hA := sprintKVs_mpv hm
     have sA := sprintKVs_soft kvs
@@ -531,9 +531,9 @@ theorem writeWF : ∀ n : Nat,
       | @array t xs ys hl =>
         simp only [writeObjectL]
         exact ihOs xs ys (by simp at hs; omega) hl
-      | map kt vt hv hk hn hm hp =>
+      | map kt vt hv hk hn hm hp ht =>
         rw [writeObjectL_sprint_of_tag (.inl rfl), writeObjectL_sprint_of_tag (.inl rfl)]
-        exact sprint_mp (MP.map kt vt hv hk hn hm hp)
+        exact sprint_mp (MP.map kt vt hv hk hn hm hp ht)
       | mapVals kt vt hv hn hm =>
         rw [writeObjectL_sprint_of_tag (.inl rfl), writeObjectL_sprint_of_tag (.inl rfl)]
         exact sprint_mp (MP.mapVals kt vt hv hn hm)
